@@ -59,7 +59,7 @@ RES=""
 for c in "${CHECKS[@]}"; do
   log="$SCR/check-$c.log"
   (cd "$VERIF" && unset CARGO_TARGET_DIR && VERIF_REPO="$SCR/wt" ./check "$c" --tier quick) >"$log" 2>&1; rc=$?
-  sig=$(grep -m1 "^FAILURE" "$log" | sed -E 's/^FAILURE property=[A-Z0-9]+ signature=([^ ]+) ::.*/\1/')
+  sig=$(grep -m1 "^FAILURE" "$log" | sed -E 's/^FAILURE property=[A-Z0-9]+ signature=(.*) :: .*/\1/' | cut -c1-120)
   RES="$RES{\"check\":\"$c\",\"exit\":$rc,\"signature\":\"$(printf '%s' "$sig" | sed 's/"/\\"/g')\"},"
   cp "$log" "$OUT/check-$c.log"
 done
